@@ -178,6 +178,9 @@ def run(tier):
             nds = [{"name": "configuration-plaintext", "bytes": B(v)} for v in cfg.values() if needle_of(v) == v]
             if nds:
                 rec.add({"op": "c06.scan", "text": L.chars(text), "needles": nds})
+            # the application edits the component set_config produced (a plain development build: ENC = 00, flag off; other tags
+            # changed) and drops the file: a LATER set_config on an unrelated file must not inherit any of it
+            L.poison(f)
         # BEC2 framing: session key, security code, customer key must not appear either
         for _ in range(15 if tier == "quick" else 200):
             plan = G.Plan(r, rcpts, r.choice(C.ORDERINGS), key_cls="generic", explicit_key=r.random() < 0.6, use_default_rcpt=r.random() < 0.5)
